@@ -18,6 +18,7 @@ def ok : Bool := false
 def ownProcessGroup : Bool := false
 def contextEndKillsGroup : Bool := false
 def stopKillsGroupFirst : Bool := false
+def stopKillsGroupBeforeWaiting : Bool := false
 def killGroupIsSigkillToMinusPid : Bool := false
 def stopDelayMs : Nat := 0
 def executeHoldsMutexAcrossRun : Bool := true
@@ -78,6 +79,10 @@ func extractSubproc(root string) (string, map[string]any, error) {
 	fmt.Fprintf(&b, "/-- the subprocess is started as the leader of its own process group (%s) -/\ndef ownProcessGroup : Bool := %s\n", p.pos(setGroup), leanBool(ownGroup))
 	fmt.Fprintf(&b, "/-- exec.Cmd.Cancel kills the group, then the process (%s) -/\ndef contextEndKillsGroup : Bool := %s\n", p.pos(create), leanBool(ctxKill))
 	fmt.Fprintf(&b, "/-- the kill scheduled by Stop signals the group before looking the process up (%s) -/\ndef stopKillsGroupFirst : Bool := %s\n", p.pos(stop), leanBool(stopFirst))
+	// Stop() signals the group with the same SIGKILL straight away, before it waits: the scheduled kill is cancelled when
+	// Wait returns early (the leader had already exited)
+	stopNow := strings.Contains(ss, "pid := subprocess.Pid killProcessGroup(pid) parallelisation.ScheduleAfter(ctx,")
+	fmt.Fprintf(&b, "/-- Stop() kills the group straight away, before scheduling the follow-up kill and waiting -/\ndef stopKillsGroupBeforeWaiting : Bool := %s\n", leanBool(stopNow))
 	fmt.Fprintf(&b, "/-- killProcessGroup(pid) = kill(-pid, SIGKILL) -/\ndef killGroupIsSigkillToMinusPid : Bool := %s\n", leanBool(kg))
 	fmt.Fprintf(&b, "def stopDelayMs : Nat := %s\n", m[1])
 	fmt.Fprintf(&b, "/-- Execute takes the object's mutex, defers its release and only then runs the command -/\ndef executeHoldsMutexAcrossRun : Bool := %s\n", leanBool(execHolds))
